@@ -49,6 +49,8 @@ def raw_strategy():
         st.tuples(st.just("obj"), st.integers(0, 9)).map(list),
         st.sampled_from([["as-needed"], ["as-needed"], ["no-as-needed"], ["push"], ["pop"]]),
         st.sampled_from([["as-needed"], ["no-as-needed"], ["push"], ["pop"]]),
+        # --whole-archive regions must not influence which shared libraries are needed.
+        st.sampled_from([["whole-archive"], ["no-whole-archive"]]),
     )
     return st.fixed_dictionaries({
         "libs": st.lists(lib, min_size=1, max_size=5),
@@ -259,7 +261,8 @@ def command_line(case):
                          "script-as-needed": f"scra{j}.ld"}[sp])
         else:
             args.append({"as-needed": "--as-needed", "no-as-needed": "--no-as-needed", "push": "--push-state",
-                         "pop": "--pop-state"}[t[0]])
+                         "pop": "--pop-state", "whole-archive": "--whole-archive",
+                         "no-whole-archive": "--no-whole-archive"}[t[0]])
     return args
 
 
